@@ -90,6 +90,7 @@ pub fn main(args: &[String]) {
     let inputs = Arc::new(inputs);
 
     // (1) threads sharing &parser, released together
+    let cold: Option<usize> = arg(args, "--cold").and_then(|c| c.parse().ok());
     let barrier = Arc::new(Barrier::new(nthreads));
     let mut handles = Vec::new();
     for t in 0..nthreads {
@@ -100,9 +101,13 @@ pub fn main(args: &[String]) {
             let mut evs = Vec::new();
             barrier.wait();
             for seq in 0..ncalls {
-                // the first calls of every thread go for the lazily built table
-                let op = if seq < 2 { "scale" } else { OPS[rng.gen_range(0..OPS.len())] };
-                let i = rng.gen_range(0..inputs.len());
+                // the first calls of every thread go for whatever is built lazily: the fraction table (scale), and - when
+                // the driver names a "cold" input - the same prose on the brand-new parser from all threads at once
+                let op = if seq == 0 && cold.is_some() { "parse" } else if seq < 2 { "scale" } else { OPS[rng.gen_range(0..OPS.len())] };
+                let i = match (seq, cold) {
+                    (0, Some(c)) => c,
+                    _ => rng.gen_range(0..inputs.len()),
+                };
                 evs.push((t, seq, op, i, None));
                 let hash = call(&parser, op, &inputs[i]);
                 evs.push((t, seq, op, i, Some(hash)));
@@ -149,6 +154,32 @@ pub fn main(args: &[String]) {
         }
     }
     let mut out = vec![json!({"ev": "Reset", "t": 0, "seq": 0, "op": "", "input": 0, "hash": "", "base": ""})];
+    // (4) cold starts: a brand-new parser per round, all threads released together on the same input, one call each.
+    // Whatever the parser or its converter builds lazily on first use is raced for in every round.
+    if let Some(c) = cold {
+        let rounds: usize = arg(args, "--cold-rounds").and_then(|x| x.parse().ok()).unwrap_or(40);
+        for round in 0..rounds {
+            let fresh = Arc::new(CooklangParser::new(ext_from_bits(ext), converter(conv)));
+            let barrier = Arc::new(Barrier::new(nthreads));
+            let hs: Vec<_> = (0..nthreads)
+                .map(|t| {
+                    let (fresh, inputs, barrier) = (fresh.clone(), inputs.clone(), barrier.clone());
+                    std::thread::spawn(move || {
+                        crate::util::quiet_panics();
+                        barrier.wait();
+                        (t, call(&fresh, "parse", &inputs[c]))
+                    })
+                })
+                .collect();
+            out.push(json!({"ev": "Reset", "t": 0, "seq": round, "op": "", "input": 0, "hash": "", "base": ""}));
+            for hdl in hs {
+                let (t, hh) = hdl.join().expect("cold thread");
+                out.push(json!({"ev": "Begin", "t": t, "seq": 0, "op": "parse", "input": c, "hash": "", "base": base[&("parse", c)]}));
+                out.push(json!({"ev": "End", "t": t, "seq": 0, "op": "parse", "input": c, "hash": hh, "base": base[&("parse", c)]}));
+            }
+        }
+        out.push(json!({"ev": "Reset", "t": 0, "seq": 0, "op": "", "input": 0, "hash": "", "base": ""}));
+    }
     for (t, seq, op, i, hash) in events {
         out.push(match hash {
             None => json!({"ev": "Begin", "t": t, "seq": seq, "op": op, "input": i, "hash": "", "base": base[&(op, i)]}),
